@@ -17,11 +17,12 @@ Next == l < Len(T.steps) /\ l' = l + 1 /\ UNCHANGED tid
 Spec == Init /\ [][Next]_vars
 
 NBlocks == Len(T.tree)
-Tree == [b \in 0..(NBlocks - 1) |-> [parent |-> T.tree[b + 1][1], height |-> T.tree[b + 1][2], txs |-> T.tree[b + 1][3]]]
+Tree == [b \in 0..(NBlocks - 1) |-> [parent |-> T.tree[b + 1][1], height |-> T.tree[b + 1][2], txs |-> T.tree[b + 1][3],
+                                     cb |-> [k \in 1..Len(T.tree[b + 1][4]) |-> [s |-> T.tree[b + 1][4][k][1], v |-> T.tree[b + 1][4][k][2]]]]]
 IsView == S.ev \in {"view", "flushed", "backedup", "caughtup", "final", "reopen", "stopped"}
 Chain == S.hdrs
 Valid == IsView /\ S.h >= 0 /\ \A k \in 1..Len(Chain) : Chain[k] \in 0..(NBlocks - 1)
-O == FoldTxsAt(TxSeqIn(Tree, Chain), T.activation)
+O == FoldTxsAt(Tree, TxSeqIn(Tree, Chain), T.activation)
 Txs == TxSeqIn(Tree, Chain)
 Pair(x) == <<x[1], x[2]>>
 
@@ -72,6 +73,11 @@ PrunedOnOpen ==
   (IsView /\ S.ev = "reopen" /\ S.h >= 0) => \A k \in 1..Len(S.undo) : S.undo[k] >= S.h - T.limit + 1
 UndoAvailable ==
   (S.ev = "died" /\ S.why = "noundo") => (S.need > T.limit \/ S.shrunk \/ S.behind)
+(* C14: while the compaction tool works on the database every history stays what it was *)
+ToolPreserves ==
+  (S.ev = "toolview" /\ S.h >= 0) =>
+    LET o == FoldTxsAt(Tree, TxSeqIn(Tree, S.hdrs), T.activation)
+    IN \A k \in 1..Len(S.hist) : S.hist[k][2] = o.H[S.hist[k][1]]
 (* C06: after a shutdown the stored height is the height in memory when the task returned, and   *)
 (* includes every block completed before the request (never more than it while undoing blocks) *)
 KeepsFinishedWork ==
